@@ -687,7 +687,11 @@ theorem attempt_ok (T : MsTables) (r : PStr) (mode : Mode) (data : Bytes) (u : P
     | some c =>
       simp only [hco, Bool.false_eq_true, if_false] at h
       have hs : substituteWith T mode [] = [] := rfl
-      cases c <;> (split at h <;> simp_all [decodeStrict, decodeTable, decodeUtf8])
+      have hu : u = [] := by
+        cases c <;> (split at h <;> simp_all [decodeStrict, decodeTable, decodeUtf8])
+      subst hu
+      unfold codecOf at hco
+      split at hco <;> simp_all
   simp only [hd, if_false]
   have hc : (codecOf r).isSome = true := by
     unfold convertWith at h
